@@ -379,8 +379,13 @@ def stepOptional (rec : Ty → Ty → Answer) (src dst : Ty) : Step :=
     | _, _ => .skip   -- unreachable on normalised unions (two distinct cases)
   else .skip
 
-/-- `TypeHintTagsUnwrappingProvider`: `delegating_provide` turns every failure of the
-    delegated search into a non-terminal one -/
+/-- `TypeHintTagsUnwrappingProvider`. The model has no terminal / non-terminal distinction: a
+    failed delegated search lets the following providers try. (Since fix fcb6537 the real
+    provider keeps the terminality of the nested failure; a TERMINAL nested failure - an
+    unlinkable field of a nested model pair - ends the search. Without user recipe entries this
+    cannot be observed: the only pairs the later providers could still accept after a failed
+    unwrapped search are equal tagged types, and for equal types the unwrapped search does not
+    fail. Recipes that make `M -> M` unsatisfiable are C13's domain, where the oracle covers it.) -/
 def stepUnwrap (rec : Ty → Ty → Answer) (src dst : Ty) : Step :=
   let s := stripTags src
   let d := stripTags dst
